@@ -2,10 +2,10 @@ package engine
 
 import (
 	"fmt"
-	"strings"
 	"go/token"
 	"go/types"
 	"reflect"
+	"strings"
 	"sync"
 
 	"golang.org/x/tools/go/ssa"
